@@ -13,6 +13,8 @@ def calls_in(f: Func, pred: Optional[Callable[[ast.Call], bool]] = None) -> List
 
 def call_name(c: ast.Call) -> str:
     """Last component of the callee expression (`a.b.c(...)` -> 'c')."""
+    if not isinstance(c, ast.Call):
+        return ''
     fn = c.func
     if isinstance(fn, ast.Attribute):
         return fn.attr
